@@ -296,4 +296,43 @@ def async_wake():
     return P
 
 
-CORPUS = {"corpus_async": async_wake, "corpus_sem": sem, "corpus_sync_pb": sync_pb, "corpus_sync_big": sync_big, "corpus_deadlock": deadlock, "corpus_locks": locks, "corpus_sync": sync, "corpus_mpsc": mpsc}
+def tls():
+    """Thread-local lifecycles that random programs rarely reach: three keys in one task (destruction in
+    initialisation order), destructors reading keys that are alive / already destroyed / never initialised."""
+    P = []
+    def mk(pid, tasks, touch, yld, **kw):
+        pr = prog(pid, "corpus_tls", tasks, **kw)
+        pr["tls_touch"] = touch
+        pr["tls_yield"] = yld
+        return pr
+    P.append(mk(170, [[op("tls_set", o=0, v=1), op("tls_set", o=1, v=2), op("tls_set", o=2, v=3)]], [-1, -1, -1], [0, 0, 0]))
+    P.append(mk(171, [[op("spawn", v=1), op("tls_set", o=2, v=1), op("tls_set", o=0, v=2), op("tls_get", o=1), op("join", v=1)],
+                      [op("tls_set", o=1, v=5), op("tls_set", o=2, v=6), op("tls_set", o=0, v=7), op("load", o=0)]],
+                [2, 0, 1], [0, 1, 0], atomics=[0]))
+    P.append(mk(172, [[op("spawn", v=1), op("tls_set", o=0, v=1), op("tls_set", o=1, v=2), op("join", v=1), op("tls_get", o=2)],
+                      [op("tls_set", o=2, v=5), op("tls_set", o=1, v=6), op("yield"), op("tls_set", o=0, v=7)]],
+                [1, 2, 0], [1, 0, 1]))
+    # a destructor that touches a key this thread never initialised: it is created during destruction and destroyed in turn
+    P.append(mk(173, [[op("spawn", v=1), op("join", v=1)], [op("tls_set", o=0, v=5), op("tls_set", o=2, v=6)]],
+                [1, -1, 1], [0, 0, 0]))
+    return P
+
+
+def poison():
+    """A Mutex released by a panicking holder (the panic is caught inside the task) is poisoned - and still a mutex."""
+    P = []
+    # poisoned, then one locker at a time
+    P.append(prog(180, "corpus_poison", [
+        [op("lock", o=0, w=0), op("punlock", w=0), op("lock", o=0, w=0), op("unlock", w=0), op("try_lock", o=0, w=1), op("unlock_if", w=1)]], nmutex=1))
+    # poisoned while another thread is blocked in lock()
+    P.append(prog(181, "corpus_poison", [
+        [op("lock", o=0, w=0), op("spawn", v=1), op("yield"), op("punlock", w=0), op("join", v=1)],
+        [op("lock", o=0, w=0), op("unlock", w=0)]], nmutex=1))
+    # two lockers race for the poisoned mutex: it must still exclude
+    P.append(prog(182, "corpus_poison", [
+        [op("lock", o=0, w=0), op("punlock", w=0), op("spawn", v=1), op("lock", o=0, w=0), op("yield"), op("unlock", w=0), op("join", v=1)],
+        [op("lock", o=0, w=0), op("yield"), op("unlock", w=0)]], nmutex=1))
+    return P
+
+
+CORPUS = {"corpus_poison": poison, "corpus_tls": tls, "corpus_async": async_wake, "corpus_sem": sem, "corpus_sync_pb": sync_pb, "corpus_sync_big": sync_big, "corpus_deadlock": deadlock, "corpus_locks": locks, "corpus_sync": sync, "corpus_mpsc": mpsc}
